@@ -1,5 +1,73 @@
 import XsVerif.Driver.Util
-open Lean XsVerif.Driver
+import XsVerif.Model.Access
+open Lean XsVerif.Driver XsVerif.Access
 
--- stub: replaced when the model of C12 lands
-def main : IO Unit := XsVerif.Driver.run fun _ => .error "C12 driver not implemented"
+namespace XsVerif.Driver.C12
+
+/-- strings travel as JSON strings whose code points are the byte values (latin-1 view). -/
+def toBytes (s : String) : Bytes := s.toList.map Char.toNat
+def ofBytes (b : Bytes) : String := String.ofList (b.map Char.ofNat)
+def jb (b : Bytes) : Json := Json.str (ofBytes b)
+
+def optBytes (j : Json) (k : String) : Except String (Option Bytes) :=
+  match j.getObjVal? k with
+  | .ok (.str s) => pure (some (toBytes s))
+  | .ok .null => pure none
+  | .error _ => pure none
+  | _ => throw s!"{k}: string or null expected"
+
+def parseAllow (s : String) : Except String Allow :=
+  match s with
+  | "all" => pure .all | "remote" => pure .remote | "local" => pure .loc
+  | "sandbox" => pure .sandbox | "none" => pure .none | _ => throw "allow"
+
+def decisionStr : Decision → String
+  | .ok => "ok" | .blockedNone => "blocked-none" | .blockedLocal => "blocked-local"
+  | .blockedRemote => "blocked-remote" | .blockedSandbox => "blocked-sandbox"
+
+def normJson : Norm → Json
+  | .file p u => Json.mkObj [("kind", "file"), ("path", jb p), ("url", jb u)]
+  | .remote s n j => Json.mkObj [("kind", "remote"), ("scheme", jb s), ("netloc", jb n),
+      ("joined", match j with | some p => jb p | none => Json.null)]
+  | .outOfScope => Json.mkObj [("kind", "out-of-scope")]
+  | .error => Json.mkObj [("kind", "error")]
+
+def classStr : UrlClass → String
+  | .loc => "local" | .remote => "remote" | .neither => "neither"
+
+def handle (j : Json) : Except String Json := do
+  let op ← getStr j "op"
+  match op with
+  | "norm" =>
+    let cwd := toBytes (← getStr j "cwd")
+    let base ← optBytes j "base"
+    let url := toBytes (← getStr j "url")
+    return Json.mkObj [("norm", normJson (normalizeUrl cwd base url)), ("class", classStr (classify url))]
+  | "normpath" =>
+    let p := toBytes (← getStr j "p")
+    return Json.mkObj [("r", jb (normpath p)), ("q", jb (quote p)), ("uq", jb (unquote p)),
+      ("dirname", jb (dirname p))]
+  | "split" =>
+    let s := urlsplit (toBytes (← getStr j "u"))
+    return Json.mkObj [("scheme", jb s.scheme), ("netloc", jb s.netloc), ("path", jb s.path),
+      ("query", jb s.query), ("fragment", jb s.fragment)]
+  | "access" =>
+    let a ← parseAllow (← getStr j "allow")
+    let base ← optBytes j "base"
+    let url ← optBytes j "url"
+    return Json.mkObj [("decision", decisionStr (accessControl a base url)),
+      ("class", match url with | some u => classStr (classify u) | none => "none")]
+  | "resolve" =>
+    let a ← parseAllow (← getStr j "allow")
+    let cwd := toBytes (← getStr j "cwd")
+    let base ← optBytes j "base"
+    let loc := toBytes (← getStr j "loc")
+    let r := resolve a cwd base loc
+    return Json.mkObj [("norm", normJson r.norm),
+      ("base", match r.baseNorm with | some b => normJson b | none => Json.null),
+      ("decision", match r.decision with | some d => Json.str (decisionStr d) | none => Json.null)]
+  | _ => throw s!"unknown op {op}"
+
+end XsVerif.Driver.C12
+
+def main : IO Unit := XsVerif.Driver.run XsVerif.Driver.C12.handle
